@@ -871,17 +871,24 @@ def check_simplify(ctx):
         return
     ml = merge[0]
     grp = norm(ml.target) if isinstance(ml.target, ast.Name) else norm(ml.target.elts[-1])
+    grp_forms, grp_members = {grp}, {grp}
+    if isinstance(ml.target, ast.Tuple) and len(ml.target.elts) == 2 and isinstance(ml.target.elts[0], ast.Name) and isinstance(ml.target.elts[1], ast.Starred) and "items()" not in norm(ml.iter):
+        # `for first, *rest in groups.values()`: the group is (first, *rest)
+        a_, r_ = ml.target.elts[0].id, norm(ml.target.elts[1].value)
+        grp_forms = {f"({a_}, *{r_})", f"[{a_}, *{r_}]"}
+        grp_members = {a_}
+        grp = a_
     sums = [n for n in ast.walk(ml) if isinstance(n, ast.Call) and dotted(n.func) in ("sum", "np.sum", "math.fsum")]
     ok_sum = False
     for s in sums:
         a = s.args[0] if s.args else None
-        if isinstance(a, (ast.GeneratorExp, ast.ListComp)) and len(a.generators) == 1 and norm(a.generators[0].iter) == grp and not a.generators[0].ifs and norm(a.elt) == f"{norm(a.generators[0].target)}.coefficient":
+        if isinstance(a, (ast.GeneratorExp, ast.ListComp)) and len(a.generators) == 1 and norm(a.generators[0].iter) in grp_forms and not a.generators[0].ifs and norm(a.elt) == f"{norm(a.generators[0].target)}.coefficient":
             ok_sum = True
     ctx.check(ok_sum, R5, f.key + ":coefficient-sum", "merged coefficient = sum of the coefficients of all terms of the group", "the merged coefficient is not the plain sum over the whole group of like terms", f"{f.module.relpath}:{ml.lineno}")
     # the merged term keeps the group's operators
     copies = [n for n in ast.walk(ml) if isinstance(n, ast.Call) and isinstance(n.func, ast.Attribute) and n.func.attr == "copy" and arg_or_kw(n, 0, "new_coefficient") is not None]
     mx = Expander(f.node, keep=[grp])
-    ok_copy = bool(copies) and all(grp in {n.id for n in ast.walk(mx.expand(c.func.value)) if isinstance(n, ast.Name)} for c in copies)
+    ok_copy = bool(copies) and all(grp_members & {n.id for n in ast.walk(mx.expand(c.func.value)) if isinstance(n, ast.Name)} for c in copies)
     if copies:
         ctx.check(ok_copy, R5, f.key + ":merged-term", "merged term = a term of the group with the summed coefficient", f"the merged term {short(copies[0])} is not a copy of a member of the same group with the new coefficient", f"{f.module.relpath}:{ml.lineno}")
     else:
